@@ -51,6 +51,10 @@ func (e *HTTPErrorExpr) Validate() *eval.ValidationErrors {
 	case *RootExpr:
 		ee = Root.Error(e.Name)
 	}
+	if ee == nil {
+		// no matching error (reported above): nothing to check the headers against
+		return verr
+	}
 
 	// validate headers
 	if e.Response.Headers != nil && !e.Response.Headers.IsEmpty() {
